@@ -59,9 +59,10 @@ Definition wf (tx : toxic) (s : lstate) : Prop :=
     end
   | SendT _ _ => match tx with TBandwidth _ => True | _ => False end
   | LatWait _ _ _ => match tx with TLatency _ _ => True | _ => False end
-  | BwInst p _ _ =>
+  | BwInst p r _ _ =>
     match tx with
-    | TBandwidth rate => slice_ok 0 (bw_instalment_bytes rate) (zlen (cdata p)) = true
+    | TBandwidth rate => slice_ok 0 (bw_instalment_bytes r) (zlen (cdata p)) = true /\
+                         (bw_cut_uses_tested_rate = false -> r = rate)
     | _ => False
     end
   | BwFinal _ _ _ _ => match tx with TBandwidth _ => True | _ => False end
@@ -92,12 +93,12 @@ Qed.
 Lemma bw_loop_wf rate (p : chunk) sl now :
   wf (TBandwidth rate) (bw_loop rate p sl now) /\ held (bw_loop rate p sl now) = cdata p.
 Proof.
-  unfold bw_loop, bw_split_test. rewrite maxint_cent.
-  destruct ((0 <=? rate) && (rate <=? 92233720368547758)) eqn:Hr; cbn [andb]; [|simpl; auto].
-  rewrite wrap64_id by (unfold two63 in *; lia).
-  destruct (rate * 100 <? zlen (cdata p)) eqn:E; simpl; [|auto].
-  unfold bw_instalment_bytes. rewrite wrap64_id by (unfold two63 in *; lia).
-  unfold slice_ok. split; [lia|reflexivity].
+  unfold bw_loop. destruct (bw_split_test (zlen (cdata p)) rate) eqn:E; [|simpl; auto].
+  cbn [wf held]. split; [|reflexivity]. split; [|reflexivity].
+  unfold bw_split_test in E. rewrite maxint_cent in E. unfold bw_instalment_bytes.
+  assert (Hr : 0 <= rate <= 92233720368547758) by lia.
+  rewrite wrap64_id in E |- * by (unfold two63; lia).
+  unfold slice_ok. lia.
 Qed.
 
 Lemma slicer_next_wf avg var delay (c : chunk) rest o tot :
@@ -158,19 +159,26 @@ Proof.
   - destruct tx; simpl in *; inversion H; subst; simpl; auto.
 Qed.
 
-Theorem on_timer_contract tx now s :
-  attrs_ok tx -> wf tx s ->
-  wf tx (on_timer tx now s) /\ held (on_timer tx now s) = held s.
+Theorem on_timer_gen_contract tested tx now s :
+  attrs_ok tx -> wf tx s -> (tested = bw_cut_uses_tested_rate) ->
+  wf tx (on_timer_gen tested tx now s) /\ held (on_timer_gen tested tx now s) = held s.
 Proof.
-  intros Hok Hwf.
-  destruct s; simpl in *; auto.
+  intros Hok Hwf Ht.
+  destruct s; cbn [on_timer_gen wf held] in *; auto.
   - destruct tmr; simpl; auto.
   - destruct tx; try contradiction. simpl. rewrite app_nil_r. auto.
-  - destruct tx; try contradiction. rewrite Hwf. simpl.
-    split; [exact I|]. apply slice_to_from.
+  - destruct tx; try contradiction. destruct Hwf as [Hs Hr].
+    assert (E : (if tested then r else rate) = r).
+    { destruct tested; [reflexivity|]. symmetry. apply Hr. now rewrite <- Ht. }
+    rewrite E, Hs. simpl. split; [exact I|]. apply slice_to_from.
   - destruct tx; try contradiction. simpl. rewrite app_nil_r. auto.
   - destruct tx; try contradiction. apply slicer_next_wf. exact Hwf.
 Qed.
+
+Theorem on_timer_contract tx now s :
+  attrs_ok tx -> wf tx s ->
+  wf tx (on_timer tx now s) /\ held (on_timer tx now s) = held s.
+Proof. intros Hok Hwf. apply on_timer_gen_contract; auto. Qed.
 
 (** a completed send removes exactly the chunk that was sent *)
 Theorem on_sent_contract tx ps now (c : chunk) k s' ps' :
@@ -247,7 +255,7 @@ Qed.
 
 Lemma static_on_timer tx now s : static_st s -> static_st (on_timer tx now s).
 Proof.
-  destruct s; simpl; auto.
+  unfold on_timer. destruct s; simpl; auto.
   - destruct tmr; simpl; auto.
   - destruct tx; simpl; auto. destruct (slice_ok _ _ _); simpl; auto.
   - intros _. unfold slicer_next. destruct rest as [|lo [|hi r]]; simpl; auto.
